@@ -19,6 +19,8 @@
    with a proposal that never lands in the prior support it does not (noted). *)
 EXTENDS Integers, Sequences, FiniteSets, SequencesExt, FiniteSetsExt, Json, IOUtils, TLC
 
+VARIABLE cur      \* the case under examination (one TLC state per case)
+
 CONSTANTS N, MaxBatches
 
 Masks == [1..N -> BOOLEAN]
@@ -36,17 +38,16 @@ Case(ms) == [masks |-> ms, batches |-> Len(ms), kept |-> SubSeq(Collect(ms, 1), 
              prior_calls |-> Len(ms), proposal_calls |-> Len(ms), likelihood_calls |-> 1, likelihood_points |-> N]
 Cases == {Case(ms) : ms \in Runs}
 
-ExactlyN == \A c \in Cases : Len(c.kept) = N
-OnlyValid == \A c \in Cases : \A r \in 1..N : c.masks[c.kept[r][1]][c.kept[r][2]]
-DrawOrder == \A c \in Cases : \A r \in 1..(N - 1) :
+ExactlyN == \A c \in {cur} : Len(c.kept) = N
+OnlyValid == \A c \in {cur} : \A r \in 1..N : c.masks[c.kept[r][1]][c.kept[r][2]]
+DrawOrder == \A c \in {cur} : \A r \in 1..(N - 1) :
                c.kept[r][1] < c.kept[r + 1][1] \/ (c.kept[r][1] = c.kept[r + 1][1] /\ c.kept[r][2] < c.kept[r + 1][2])
-NoRowTwice == \A c \in Cases : Cardinality({c.kept[r] : r \in 1..N}) = N
-ASSUME ExactlyN /\ OnlyValid /\ DrawOrder /\ NoRowTwice
+NoRowTwice == \A c \in {cur} : Cardinality({c.kept[r] : r \in 1..N}) = N
 ASSUME PrintT(<<"NCASES", Cardinality(Cases)>>)
 ASSUME JsonSerialize(IOEnv.OUT_FILE, SetToSeq(Cases))
 
-VARIABLE dummy
-Init == dummy = 0
-Next == UNCHANGED dummy
-Spec == Init /\ [][Next]_dummy
+\* one TLC state per case: the laws are state invariants evaluated on every case
+Init == cur \in Cases
+Next == UNCHANGED cur
+Spec == Init /\ [][Next]_cur
 =============================================================================
